@@ -8,9 +8,11 @@ pub mod c01;
 pub mod c02;
 pub mod c03;
 pub mod c05;
+pub mod c08;
 pub mod c10;
 pub mod c14;
 pub mod c15;
+pub mod c16;
 pub mod c19;
 pub mod c20;
 
@@ -20,9 +22,11 @@ pub fn run(prop: &str, cfg: &Cfg) -> Outcome {
         "C02" => c02::run(cfg),
         "C03" => c03::run(cfg),
         "C05" => c05::run(cfg),
+        "C08" => c08::run(cfg),
         "C10" => c10::run(cfg),
         "C14" => c14::run(cfg),
         "C15" => c15::run(cfg),
+        "C16" => c16::run(cfg),
         "C19" => c19::run(cfg),
         "C20" => c20::run(cfg),
         _ => {
@@ -38,9 +42,11 @@ pub fn replay(prop: &str, cfg: &Cfg, case: &Value) -> Vec<Violation> {
         "C02" => c02::replay(cfg, case),
         "C03" => c03::replay(cfg, case),
         "C05" => c05::replay(cfg, case),
+        "C08" => c08::replay(cfg, case),
         "C10" => c10::replay(cfg, case),
         "C14" => c14::replay(cfg, case),
         "C15" => c15::replay(cfg, case),
+        "C16" => c16::replay(cfg, case),
         "C19" => c19::replay(cfg, case),
         "C20" => c20::replay(cfg, case),
         _ => {
